@@ -126,6 +126,8 @@ func installIntrinsics(m *Machine) {
 		if b.T == nil {
 			if !b.C {
 				r.violation(string(a[1].(Str)), r.TT.True())
+				// natively the harness stops at its first failed assertion; so does this path
+				r.abort("assertion failed on every input of this path")
 			}
 			return nil
 		}
@@ -133,6 +135,9 @@ func installIntrinsics(m *Machine) {
 		switch r.S.CheckAssuming(neg) {
 		case "sat":
 			r.violation(string(a[1].(Str)), neg)
+			if r.S.CheckAssuming(b.T) != "sat" {
+				r.abort("assertion failed on every input of this path")
+			}
 		case "unsat":
 		default:
 			r.abort("unknown at assert")
@@ -141,6 +146,21 @@ func installIntrinsics(m *Machine) {
 		return nil
 	}
 	I[vp+"EqBytes"] = I["bytes.Equal"]
+	I[vp+"LessBytes"] = func(r *Run, fr *Frame, a []Value) Value {
+		lt, _ := r.lexLess(a[0].(Slice).S, a[1].(Slice).S)
+		return termBool(lt)
+	}
+	I[vp+"Ite"] = func(r *Run, fr *Frame, a []Value) Value {
+		c := a[0].(Bool)
+		x, y := a[1].(Num), a[2].(Num)
+		if c.T == nil {
+			if c.C {
+				return x
+			}
+			return y
+		}
+		return Num{W: x.W, Signed: x.Signed, T: r.TT.Ite(c.T, r.numTerm(x), r.numTerm(y))}
+	}
 	I[vp+"And"] = func(r *Run, fr *Frame, a []Value) Value {
 		return termBool(r.TT.And(r.boolTerm(a[0].(Bool)), r.boolTerm(a[1].(Bool))))
 	}
